@@ -1,9 +1,14 @@
 (* RunC07.v — executable entry point of the C07 model for the correspondence check.
-   input  = (builder target pre (operand widths...) (destination widths...) (params...) full)
+   input  = (builder target pre (operand widths...) (destination widths...) (params...) full
+             ((operand values...)...))
      the harness numbers the input wires 0..ni-1 (operands in order) and the
      preallocated destination wires ni..ni+nd-1; pre = 1: ZeroWire() and
      OneWire() are created before the builder runs (as ssa.CompileCircuit does)
-   output = (ngates hash wfc dbu (dest1' ...) (dest2' ...) (gates...))
+   output = (ngates hash wfc dbu (dest1' ...) (dest2' ...) (gates...) ((value1 value2)...))
+     the last element: for every tuple of operand values of the input the numbers carried by
+     the two destination vectors when the emitted gate list is evaluated gate by gate
+     (EvalFast.evalm = Emit.eval_rev); the harness compares them with the outputs of the
+     real compiled circuit on the same operands
      gates = ((op a b o)...) in emission order with wires canonically renumbered
      (inputs and destinations keep their numbers, every other wire is numbered
      by first appearance); only when full = 1, else ().
@@ -15,7 +20,7 @@
 From Coq Require Import ZArith NArith List Bool Arith FMapPositive.
 From Mpc Require Import Gen.Consts Gen.Thresholds Base.Sx
   Builders.Emit Builders.Adder Builders.Sub Builders.Mux Builders.Cmp Builders.Bitwise
-  Builders.Index Builders.Hamming Builders.Mult Builders.Gmwdiv Builders.Div.
+  Builders.Index Builders.Hamming Builders.Mult Builders.Gmwdiv Builders.Div Builders.EvalFast.
 Import ListNotations.
 Open Scope monad_scope.
 
@@ -150,6 +155,16 @@ Fixpoint split_range (from : N) (ws : list nat) : list (list wire) * N :=
   | w :: r => let '(l, e) := split_range (from + N.of_nat w)%N r in (seqN from w :: l, e)
   end.
 
+(* initial assignment: operand j (width w_j) carries value v_j on its input wires *)
+Fixpoint operand_bits (opw : list nat) (vals : list N) : list bool :=
+  match opw with
+  | [] => []
+  | w :: r => map (fun i => N.testbit (hd 0%N vals) (N.of_nat i)) (seq 0 w) ++ operand_bits r (tl vals)
+  end.
+Definition env_of_operands (ni : N) (opw : list nat) (vals : list N) : env :=
+  let bs := operand_bits opw vals in
+  fun w => if N.ltb w ni then nth (N.to_nat w) bs false else false.
+
 Definition run_c07 (inp : sx) : sx :=
   let b := getnat (nthx 0 inp) in
   let tgt := getB (nthx 1 inp) in
@@ -158,6 +173,7 @@ Definition run_c07 (inp : sx) : sx :=
   let dsw := getLnat (nthx 4 inp) in
   let prm := getLnat (nthx 5 inp) in
   let full := getB (nthx 6 inp) in
+  let tuples := map getLN (getL (nthx 7 inp)) in
   let '(ops, ni) := split_range 0 opw in
   let '(dst, fixed) := split_range ni dsw in
   let prog := (if pre then _ <- zero_wire;; _ <- one_wire;; ret tt else ret tt);;
@@ -170,5 +186,9 @@ Definition run_c07 (inp : sx) : sx :=
        ofB (dbu_fast ni cg (PositiveMap.empty unit));
        SL (map (fun w => SZ (canon_lookup fixed c w)) d1);
        SL (map (fun w => SZ (canon_lookup fixed c w)) d2);
-       if full then SL (map (fun g => SL [SZ (op_code (g_op g)); ofN (g_a g); ofN (g_b g); ofN (g_o g)]) cg)
-       else SL [] ].
+       (if full then SL (map (fun g => SL [SZ (op_code (g_op g)); ofN (g_a g); ofN (g_b g); ofN (g_o g)]) cg)
+        else SL []);
+       SL (map (fun vals =>
+                  let e0 := env_of_operands ni opw vals in
+                  let m := evalm_rev (gates s) e0 in
+                  SL [ofN (to_N (map (mget m e0) d1)); ofN (to_N (map (mget m e0) d2))]) tuples) ].
